@@ -78,10 +78,14 @@ def cyclic (us : List Unit) (main : Unit) : Bool := cyclicAll us (orderFuel us m
 
 /-- the top-level binders of a unit's items with the depth at which the lexical renaming (`rnItems` from the empty stack)
 meets them -/
+def idxFrom : Nat → List Name → List (Name × Nat)
+  | _, [] => []
+  | d, x :: xs => (x, d) :: idxFrom (d + 1) xs
+
 def modDepths : Nat → List Item → List (Name × Nat)
   | _, [] => []
   | d, .bind _ x _ :: rest => (x, d) :: modDepths (d + 1) rest
-  | d, .funcs fs :: rest => (funcNames fs).zipIdx d ++ modDepths (d + fs.length) rest
+  | d, .funcs fs :: rest => idxFrom d (funcNames fs) ++ modDepths (d + fs.length) rest
   | d, .expr _ :: rest => modDepths d rest
 
 /-- qualified name of item `x` of unit `m` -/
